@@ -1777,7 +1777,7 @@ impl Evaluator {
         }
         let mut product_vec = vec![];
         let mut i = 0;
-        while i < operands.len() {
+        while i + 1 < operands.len() {
             let mut product = Ciphertext::new();
             self.multiply(&operands[i], &operands[i + 1], &mut product);
             self.relinearize_inplace(&mut product, relin_keys);
@@ -1792,7 +1792,7 @@ impl Evaluator {
             let mut product = Ciphertext::new();
             self.multiply(&product_vec[i], &product_vec[i + 1], &mut product);
             self.relinearize_inplace(&mut product, relin_keys);
-            product_vec[i] = product;
+            product_vec.push(product);
             i += 2;
         }
         *destination = product_vec[product_vec.len() - 1].clone();
